@@ -116,6 +116,14 @@ theorem binList_mass (b : Nat) (xs : List ℚ) :
   intro i _
   rw [sum_take_drop, binF]
 
+/-- The list model and the regenerated kernel agree on the number of output voxels: `len(binList b xs)` is the
+`npix` that `divmod(s, binsize)` of the source yields (`Gen.binAxis`, re-translated from `/repo` on every run). -/
+theorem binList_length_kernel (b : Nat) (hb : 1 ≤ b) (xs : List ℚ) :
+    ((binList b xs).length : Int) = (Gen.binAxis (xs.length : Int) (b : Int)).1 := by
+  have h := (bin_axis (xs.length : Int) (b : Int) (by omega) (by omega)).1
+  rw [h, binList_length]
+  exact Int.natCast_ediv _ _
+
 /-- Non-vacuity / worked instance: 7 voxels binned by 2 then 3 — one output voxel, the first six
 voxels, the seventh dropped. -/
 example : binHist [2, 3] [1, 2, 3, 4, 5, 6, 100] = [21] ∧ binList 6 [1, 2, 3, 4, 5, 6, 100] = [21] := by
